@@ -271,7 +271,8 @@ class DistinctCountCheck(AbstractCheck):
         try:
             # Apart from "count" only mathematical functions can be used in the expression, in particular no
             # other builtin functions such as exit().
-            result = eval(self._expression, {"__builtins__": DistinctCountCheck._BUILTINS_FOR_EXPRESSION}, local_variables)
+            global_variables = {"__builtins__": DistinctCountCheck._BUILTINS_FOR_EXPRESSION}
+            result = eval(self._expression, global_variables, local_variables)
         except Exception as message:
             raise errors.InterfaceError(
                 "cannot evaluate count expression %r: %s" % (self._expression, message), self.location_of_rule
